@@ -4,9 +4,9 @@
   The model is the tree after fixes/rows/01..05 (A05, A06, A07, A01, A64).  The scalar decoder `dec`
   (DecodeType) is a parameter: the theorems are about WHICH BYTES each column is decoded from.
 -/
-import PgVerif.Proofs.RowsTuple
+import PgVerif.Proofs.RowsFile
 namespace PgVerif.Props.C03
-open PgVerif PgVerif.Model PgVerif.Spec PgVerif.Proofs.Rows
+open PgVerif PgVerif.Model PgVerif.Spec PgVerif.Proofs PgVerif.Proofs.Rows
 
 /-- **Row layout.**  For every schema (any number of columns; attlen > 0, −1 or −2; alignment 1, 2, 4 or 8;
 given to the tool with an explicit alignment char or through its fallback table, with explicit or implicit
@@ -79,6 +79,28 @@ theorem C03_scanned (dec : Dec) (cols : List Col) (mcols : List Column) (r : Row
   rw [mtuple_formTuple cols r hwf]
   exact C03_decodeTuple dec cols mcols r _ hm hwf hne
 
+/-- **Whole files (the refinement theorem `readRows_enc` of the design).**  For every well-formed heap file
+(any number of pages, all-zero pages, line pointers in any state and order, a trailing partial block) whose
+stored tuples are the rows `rvs` of schema `cols` in scan order, every schema presentation `mcols` matching
+`cols` and both settings of the visibility switch: ReadRows returns, in scan order, exactly the expected row of
+each stored row version (all of them, or those whose own hint bits say live). -/
+theorem C03_file (dec : Dec) (cols : List Col) (mcols : List Column) (bs : List Block) (tail : Bytes) (vis : Bool)
+    (rvs : List RowV) (hb : ∀ b ∈ bs, b.WF) (ht : tail.length < 8192)
+    (hm : ColsMatch 0 mcols cols) (hne : mcols ≠ [])
+    (hrows : fileTuples bs = rvs.map (formTuple cols)) (hwf : ∀ r ∈ rvs, r.WF cols) :
+    readRows dec (encHeap bs tail) mcols vis =
+      collectM (fun r : RowV => expectedCols (varlenaVal dec) cols r.vals r.natts >>= fun ps => pure (some (toRow ps)))
+        (rvs.filter fun r => !vis || liveBits (formTuple cols r).infomask) := by
+  unfold readRows
+  rw [collect_scan (fun t => decodeTuple dec t mcols) bs tail vis hb ht, hrows, List.filter_map, List.map_map,
+    ← collectM_map (mtuple ∘ formTuple cols) (fun t => decodeTuple dec t mcols)]
+  apply collectM_congr
+  intro r hr
+  have hw := hwf r (List.mem_filter.mp hr).1
+  simp only [Function.comp]
+  rw [mtuple_formTuple cols r hw]
+  exact C03_decodeTuple dec cols mcols r _ hm hw hne
+
 /-- **One entry per declared column.**  When the column names are distinct the resulting map has exactly the
 pairs of `C03_layout`, one per declared column. -/
 theorem C03_entries (ps : List (Bytes × GoVal)) (h : (ps.map (·.1)).Nodup) : toRow ps = ps := by
@@ -110,6 +132,21 @@ theorem C03_entries (ps : List (Bytes × GoVal)) (h : (ps.map (·.1)).Nodup) : t
         subst this
         intro he
         exact hp (by rw [he]; exact List.mem_map_of_mem hq)
+
+/-- **The fallback alignment table is PostgreSQL's.**  Every type oid for which the tool decides the alignment
+by itself when the schema carries none (the generated graph of `typeAlign`'s switch, obtained by executing the
+code for every oid below 5000) gets the `typalign` PostgreSQL's catalog gives that type. -/
+theorem C03_typeAlign_table : ∀ p ∈ Generated.Rows.typeAlignSwitch, pgTypAlign.lookup p.1 = some p.2 := by decide
+
+/-- … hence a column of such a type handed over with `Align = 0` is aligned as PostgreSQL aligns it. -/
+theorem C03_typeAlign (p : Nat × Nat) (hp : p ∈ Generated.Rows.typeAlignSwitch) (name : Bytes) (len num : Int) :
+    colAlign ⟨name, (p.1 : Int), len, num, 0⟩ = p.2 ∧ pgTypAlign.lookup p.1 = some p.2 := by
+  refine ⟨?_, C03_typeAlign_table p hp⟩
+  have hl : Generated.Rows.typeAlignSwitch.lookup p.1 = some p.2 :=
+    (by decide : ∀ q ∈ Generated.Rows.typeAlignSwitch, Generated.Rows.typeAlignSwitch.lookup q.1 = some q.2) p hp
+  have hneg : ¬ ((p.1 : Int) < 0) := by omega
+  simp only [colAlign, alignFromChar, typeAlign, lookupOid, hneg, if_false, Int.toNat_natCast, hl]
+  simp
 
 /-! ### non-vacuity: concrete rows satisfy the hypotheses, and the statement computes -/
 
